@@ -270,3 +270,49 @@ pub open spec fn added2(ls1: Seq<SplitterList>, ls2: Seq<SplitterList>, i: u32, 
 }
 
 pub open spec fn sl_has_char_at(ls: Seq<SplitterList>, b: int, c: u32) -> bool { 0 <= b < ls.len() && sl_has_char(ls[b], c) }
+
+// ---- the invariant of the refinement loop ----
+// exception of Hopcroft's invariant while splitter (blk, c0) is being processed: pairs told apart by
+// "the c0-successor lies in block blk of partition p0"
+pub open spec fn exc_of(a: MzAut, p0: Partition, blk: u32, c0: u32) -> spec_fn(u32, u32, u32) -> bool {
+    |x: u32, y: u32, c: u32| c == c0 && (pt_bid(p0, (a.d)(x, c)) == blk) != (pt_bid(p0, (a.d)(y, c)) == blk)
+}
+
+pub open spec fn mz_inv<D: Fn(u32, u32) -> u32, F: Fn(u32) -> bool>(m: Minimizer<D, F>, exc: spec_fn(u32, u32, u32) -> bool) -> bool {
+    let a = mz_aut(m);
+    let p = m.main_partition;
+    &&& mz_struct(m, bid_of(p), p.base.block@.len() as int)
+    &&& hop_inv(a, m.splitters.list@, p, exc)
+    &&& keeps_nerode(a, p)
+}
+
+// p2 refines p1: blocks were only split
+pub open spec fn pt_finer(p2: Partition, p1: Partition) -> bool {
+    &&& p2.base.size == p1.base.size
+    &&& p2.base.block@.len() >= p1.base.block@.len()
+    &&& forall|x: u32, y: u32| x < p1.base.size && y < p1.base.size && #[trigger] same_blk(p2, x, y) ==> same_blk(p1, x, y)
+}
+
+// x and y agree on "the c0-successor lies in block blk of p0"
+pub open spec fn uni(a: MzAut, p0: Partition, blk: u32, c0: u32, x: u32, y: u32) -> bool {
+    (pt_bid(p0, (a.d)(x, c0)) == blk) == (pt_bid(p0, (a.d)(y, c0)) == blk)
+}
+
+// block b of p0 was (possibly) split by splitter (blk, c0); every other block is as it was
+pub open spec fn split_one(a: MzAut, p1: Partition, p0: Partition, b: u32, blk: u32, c0: u32) -> bool {
+    &&& pt_finer(p1, p0)
+    &&& p1.base.block@.len() <= p0.base.block@.len() + 1
+    &&& forall|x: u32| x < a.n && pt_bid(p0, x) != b ==> #[trigger] pt_bid(p1, x) == pt_bid(p0, x)
+    &&& forall|x: u32| x < a.n && pt_bid(p0, x) == b ==> #[trigger] pt_bid(p1, x) == b || pt_bid(p1, x) == p0.base.block@.len()
+    &&& forall|x: u32, y: u32| x < a.n && y < a.n && pt_bid(p0, x) == b && #[trigger] same_blk(p1, x, y) ==> uni(a, p0, blk, c0, x, y)
+}
+
+pub open spec fn app1(f: spec_fn(u32) -> u32, v: u32) -> u32 { f(v) }
+
+// x is a state of block b whose c0-successor lies in block blk
+pub open spec fn cand_at(a: MzAut, p: Partition, b: u32, blk: u32, c0: u32, x: u32) -> bool {
+    x < a.n && pt_bid(p, x) == b && pt_bid(p, (a.d)(x, c0)) == blk
+}
+pub open spec fn is_cand(a: MzAut, p: Partition, b: u32, blk: u32, c0: u32) -> bool {
+    exists|x: u32| #[trigger] cand_at(a, p, b, blk, c0, x)
+}
